@@ -145,8 +145,8 @@ type pruneHook interface{ seenState(string, int) bool }
 // Seen reports whether the canonical state key was already expanded with at least the
 // given remaining budget; the body must stop exploring (return) when it is true.
 func (c *Ctx) Seen(key string, remaining int) bool {
-	if c.pr == nil {
-		return false
+	if c.pr == nil || len(c.trail) < len(c.prefix) {
+		return false // states along the replayed prefix belong to the parent execution
 	}
 	if c.pr.seenState(key, remaining) {
 		c.pruned = true
